@@ -111,6 +111,16 @@ pub fn cases(tier: Tier) -> Vec<Case> {
     for (n, s) in selfseed {
         v.push(Case { id: format!("selfseed/{n}"), feature: "self-seeded, runtime-drawn initial seed".into(), source: Some(s.to_string()), corpus_json: None, flows: false });
     }
+    // seed values at the edges of i32 (negative, extreme): SEED_RANDOM(S) followed by every consumer
+    // of the random state; and the same consumers under a negative *story* seed. Both build
+    // profiles must play them alike (seed arithmetic that overflows only where checks are on).
+    for (sn, sv) in [("m7", "0 - 7"), ("m1", "0 - 1"), ("zero", "0"), ("one", "1"), ("imax", "2147483647"), ("mimax", "0 - 2147483647"), ("imin", "(0 - 2147483647) - 1")] {
+        let body = format!("LIST colours = (red), (green), (blue), (purple)\n~ SEED_RANDOM({sv})\nR {{RANDOM(1, 6)}} L {{LIST_RANDOM(colours)}} {{LIST_RANDOM(colours)}} S {{~a|b|c}} R {{RANDOM(0 - 5, 5)}} L {{LIST_RANDOM(colours)}}.\n* [again]\n    R {{RANDOM(1, 6)}} L {{LIST_RANDOM(colours)}} S {{~a|b|c}}.\n- {{shuffle:\n    - one\n    - two\n    - three\n}}\n-> END\n");
+        v.push(Case { id: format!("rnd/seed-{sn}"), feature: "random/seed-edge".into(), source: Some(body), corpus_json: None, flows: false });
+    }
+    for (n, s) in rnd.iter().chain(selfseed.iter()) {
+        v.push(Case { id: format!("negseed/{n}"), feature: "random/negative-story-seed".into(), source: Some(s.to_string()), corpus_json: None, flows: false });
+    }
     // base pool (also with flows) and segment family
     for (n, s) in pool::base_sources() {
         v.push(Case { id: format!("base/{n}"), feature: "base-pool".into(), source: Some(s.to_string()), corpus_json: None, flows: false });
@@ -163,7 +173,7 @@ pub fn transcript(c: &Case) -> (String, String) {
     // must stop mattering as soon as the story has seeded itself (observed from the first
     // continue on)
     let selfseed = c.id.starts_with("selfseed/");
-    let setup = Setup { bind_externals: Some(true), allow_fallbacks: true, handler: false, observers: vec![], seed: if selfseed { Some(crate::inst::NO_FORCED_SEED) } else { None } };
+    let setup = Setup { bind_externals: Some(true), allow_fallbacks: true, handler: false, observers: vec![], seed: if selfseed { Some(crate::inst::NO_FORCED_SEED) } else if c.id.starts_with("negseed/") { Some(-2_147_483_000) } else { None } };
     let mut st = Stats::default();
     let flows = c.flows;
     let fsig = sigma_hist_flows(&prog);
